@@ -337,6 +337,9 @@ def validate(ctx, stage, shard_paths, tag):
                 m = RX_DRIFT.match(line)
                 if m:
                     ctx["drift"] += 1
+                    if os.environ.get("VERIF_DRIFT_LOG"):
+                        with open(os.environ["VERIF_DRIFT_LOG"], "a") as df:
+                            df.write(tla_unquote(m.group(1)) + "\n")
                     if len(ctx["drift_samples"]) < 5:
                         ctx["drift_samples"].append(json.loads(tla_unquote(m.group(1))))
                     continue
